@@ -605,6 +605,8 @@ def run(ctx):
                 if ev['a'] == 'Query' and ev['sel']['ids'] and nt >= 2:
                     keys.add(json.dumps([rec['mesh'], rec['elem'], ev['sel'], ev['skip'], ev['op']], sort_keys=True))
         ctx.validate('TraceC07', scs, jvms=8)
+    if ctx.tier == 'thorough':
+        suite_stream(ctx)
     ctx.notes['distinct_nontrivial'] = len(keys)
     ctx.notes['scenarios_from_tlc_universe'] = n_tlc
     return ctx.finish(rule=RULE, assumptions=[
@@ -618,8 +620,49 @@ def run(ctx):
         exhaustive=False)
 
 
+SUITE_FILES = ['tests/test_dofs.py', 'tests/test_basis.py', 'tests/test_assembly.py', 'tests/test_utils.py',
+               'tests/test_manufactured.py', 'tests/test_elements.py', 'tests/test_mesh.py', 'tests/test_autodiff.py',
+               'tests/test_convergence.py', 'tests/test_convergence_h2.py', 'tests/test_convergence_nk.py',
+               'tests/test_p_convergence.py']
+
+
+def suite_stream(ctx):
+    """Every DOF query the repository's own tests make through get_dofs on a small mesh (recorded by the pytest plugin
+    harness/suite_c07.py): the query as given, the entities it resolves to, the returned view; judged by TraceC07
+    (ExactClosure / ArgumentFreeIsBoundary / SkipFilter / ByKindNames; SelectorFormsAgree needs alternative forms of the
+    same selection and is not part of this stream)."""
+    from .. import suite
+    got = suite.record(ctx, files=SUITE_FILES, plugins=['harness.suite_c07'])
+    items = got.get('c07', [])
+    # precondition as in C04: no point that belongs to no cell (the multi-mesh tests build bases on such meshes; the
+    # numbers of those points are referenced by no cell, N = max + 1 does not cover them)
+    full = [it for it in items
+            if {v for c in it['basis']['t'] for v in c} == set(range(1, it['basis']['nv'] + 1))]
+    scs = []
+    nq = 0
+    for k, it in enumerate(full):
+        b = it['basis']
+        scs.append({'id': f'C07-suite-{k}', 'recipe': {'driver': 'suite', 'test': it.get('test', ''), 'elem': it.get('elem', '')},
+                    'tags': {'family': 'suite', 'kind': b['kind'], 'elem': it.get('elem', ''), 'efnames': 'same',
+                             'basis': 'suite'},
+                    'events': [b] + it['queries']})
+        nq += len(it['queries'])
+    ctx.validate('TraceC07', scs, jvms=8)
+    sk = {}
+    for d in got.get('c07_skipped', []):
+        for a, n in d.items():
+            sk[a] = sk.get(a, 0) + int(n)
+    ctx.notes['suite_c07'] = {'bases_recorded': len(items), 'bases_skipped_unused_vertices': len(items) - len(full),
+                              'scenarios_from_repository_tests': len(scs), 'query_events': nq,
+                              'queries_not_recorded': sk}
+
+
 def replay(ctx, doc):
     sc = doc['scenario']
+    if sc.get('recipe', {}).get('driver') == 'suite':
+        # recorded from a repository test (named in the recipe): the recorded events themselves are re-validated
+        ctx.validate('TraceC07', [sc])
+        return ctx.finish(rule=RULE)
     if sc.get('recipe', {}).get('driver') == 'model':
         cfg = sc['recipe'].get('cfg', 'MC_C07.cfg')
         if cfg == 'MC_C07_names.cfg':
